@@ -67,7 +67,7 @@ def _case(draw, tier):
         "style": draw(sampled_from(["positional", "positional", "defaults", "keywords"])),
     }
     if mode == "face":
-        c["data"] = draw(datagen.data_spec(nf, vmax=8))
+        c["data"] = draw(datagen.data_spec(nf, vmax=8, stores=datagen.STORES))
         c["data2_seed"] = draw(st.integers(0, 2**20))
     else:
         c["data"] = {"lead": draw(st.lists(st.integers(1, 2), max_size=2)), "dtype": "float64", "scale": 8, "vmax": 4, "values": None, "seed": draw(st.integers(0, 999))}
@@ -158,8 +158,8 @@ def run_case(case, ctx):
     rtol = 1e-5 if spec["dtype"] == "float32" else 1e-12
     ctx.ev("dims_name_grid")
     want_dims = tuple(datagen.lead_dims(spec))
-    if not isinstance(res, ux.UxDataArray) or tuple(res.dims) != want_dims or res.uxgrid is not g or res.name != case["name"] or res.shape != lead:
-        fails.append(Failure("dims_name_grid", "integrate", "wrong", f"type {type(res).__name__} dims {getattr(res, 'dims', None)} (want {want_dims}) name {getattr(res, 'name', None)!r} (want {case['name']!r}) same grid {getattr(res, 'uxgrid', None) is g}"))
+    if not isinstance(res, ux.UxDataArray) or tuple(res.dims) != want_dims or res.uxgrid is not g or res.name != da.name or res.shape != lead:
+        fails.append(Failure("dims_name_grid", "integrate", "wrong", f"type {type(res).__name__} dims {getattr(res, 'dims', None)} (want {want_dims}) name {getattr(res, 'name', None)!r} (want {da.name!r}, the variable's own) same grid {getattr(res, 'uxgrid', None) is g}"))
         return fails
     got = np.asarray(res.values, float)
     exp = np.tensordot(arr.astype(float), areas, axes=([-1], [0]))
